@@ -304,7 +304,7 @@ func (k *rootsChecker) call(pre preState, assertAction bool, stepDesc string) *t
 		tImpl := nNB.Add(-nb).Add(nNB.Add(-nb).Sub(cNA))
 		if !inBracket(tImpl) {
 			gotShift := nNB.Add(-nb).Sub(t0)
-			k.viol("minted-window-shift:next", fmt.Sprintf("minted next is shifted by about %s, want half of current's remaining life = %s", gotShift.Round(time.Second), (cNA.Sub(t0) / 2).Round(time.Second)))
+			k.viol("minted-window-shift:next", fmt.Sprintf("minted next is shifted by about %s, want half of current's remaining life = %s", gotShift.Round(time.Second), (cNA.Sub(t0)/2).Round(time.Second)))
 		} else {
 			r.Count("next_shift_is_half_remaining_life", 1)
 		}
